@@ -205,7 +205,7 @@ def model_block(b):
             'else': None if b['else'] is None else [model_block(x) for x in b['else']]}
 
 
-CFG = {'bits': 16, 'little': False, 'regs': ['ra', 'rb'], 'preZones': [], 'preConsts': [], 'preData': []}
+CFG = {'bits': 16, 'little': False, 'regs': ['ra', 'rb'], 'preZones': [('HIGH', 0x100, 0x1FF)], 'preConsts': [], 'preData': []}
 
 
 def gen_case(rng, tier):
@@ -264,18 +264,21 @@ def gen_case(rng, tier):
     # effects in unselected branches
     sel = rng.random() < 0.4
     cond = {'k': 'cond', 'd': 'if', 'c': {'lhs': ('num', 1 if sel else 0), 'op': '!=', 'rhs': ('num', 0), 'bare': True}}
-    eff = rng.choice(['label', 'const', 'zone', 'mute', 'define', 'org', 'include'])
+    eff = rng.choice(['label', 'const', 'zone', 'mute', 'define', 'org', 'include', 'memzone', 'memzone', 'orgzone'])
     inner = {'label': [{'k': 'label', 'name': 'lab_x'}], 'const': [{'k': 'const', 'name': 'kk_x', 'e': ('num', 7)}],
              'zone': [{'k': 'createZone', 'name': 'ZX', 's': 64, 'e': 95}], 'mute': [{'k': 'mute'}],
              'define': [{'k': 'define', 'name': 'SYM_A', 'v': 9}], 'org': [{'k': 'org', 'e': ('num', 32)}],
-             'include': [{'k': 'include', 'f': 1, 'name': 'inc1.asm'}]}[eff]
+             'include': [{'k': 'include', 'f': 1, 'name': 'inc1.asm'}],
+             'memzone': [{'k': 'memzone', 'z': 'HIGH'}], 'orgzone': [{'k': 'org', 'e': ('num', 4), 'zone': 'HIGH'}]}[eff]
     after = {'label': [{'k': 'data', 'w': 2, 'vals': [('label', 'lab_x')]}],
              'const': [{'k': 'data', 'w': 1, 'vals': [('label', 'kk_x')]}],
              'zone': [{'k': 'memzone', 'z': 'ZX'}, {'k': 'data', 'w': 1, 'vals': [('num', 5)]}],
              'mute': [{'k': 'data', 'w': 1, 'vals': [('num', 6)]}],
              'define': [{'k': 'cond', 'd': 'ifdef', 's': 'SYM_A'}, {'k': 'data', 'w': 1, 'vals': [('num', 8)]}, {'k': 'cond', 'd': 'endif'}],
              'org': [{'k': 'data', 'w': 1, 'vals': [('num', 9)]}],
-             'include': [{'k': 'data', 'w': 1, 'vals': [('num', 10)]}]}[eff]
+             'include': [{'k': 'data', 'w': 1, 'vals': [('num', 10)]}],
+             'memzone': [{'k': 'data', 'w': 1, 'vals': [('num', 11)]}, {'k': 'label', 'name': 'tail_l'}, {'k': 'data', 'w': 2, 'vals': [('label', 'tail_l')]}],
+             'orgzone': [{'k': 'data', 'w': 1, 'vals': [('num', 12)]}, {'k': 'label', 'name': 'tail_l'}, {'k': 'data', 'w': 2, 'vals': [('label', 'tail_l')]}]}[eff]
     stmts = [{'k': 'data', 'w': 1, 'vals': [('num', 1)]}, cond] + inner + [{'k': 'data', 'w': 1, 'vals': [('num', 2)]},
                                                                          {'k': 'cond', 'd': 'endif'}] + after
     files = [stmts]
